@@ -190,6 +190,18 @@ Section Cut.
     rewrite !map_nth, !seq_nth by assumption. cbn [Nat.add]. now apply items_same_cluster_iff. Qed.
 End Cut.
 
+Lemma Under_snoc parents x c : Under parents x c -> nth c parents c <> c -> Under parents x (nth c parents c).
+Proof. induction 1 as [v|x v Hne Hu IH]; intros H.
+  - apply under_step; [exact H|constructor].
+  - apply under_step; [exact Hne|now apply IH]. Qed.
+
+Lemma Under_last parents x v : Under parents x v -> x <> v ->
+  exists c, Under parents x c /\ c <> v /\ nth c parents c = v.
+Proof. induction 1 as [v|x v Hne Hu IH]; intros H; [congruence|].
+  destruct (Nat.eq_dec (nth x parents x) v) as [E|E].
+  - exists x. split; [constructor|]. split; [exact H|exact E].
+  - destruct (IH E) as (c & H1 & H2 & H3). exists c. split; [now apply under_step|]. split; assumption. Qed.
+
 Lemma height_valid_down d n G feat parents height th :
   ProperDendrogram d n G feat parents height ->
   forall v, Qltb (nth (nth v parents v) height 0) th = true -> Qltb (nth v height 0) th = true.
@@ -199,23 +211,53 @@ Proof. intros PD v H. destruct (Nat.lt_ge_cases v (length parents)) as [Hlt|Hge]
 
 (* partition(th) on a proper dendrogram, th above the leaves' height: one label per
    item; two items share a label iff they have a common ancestor of height < th *)
+Lemma isleaf_item d n G feat parents height x :
+  ProperDendrogram d n G feat parents height -> (x < n)%nat -> forest_isleaf parents x = true.
+Proof. intros (P1 & _) Hx. unfold forest_isleaf. apply negb_true_iff. destruct (existsb _ _) eqn:E; [|reflexivity]. exfalso.
+  apply existsb_exists in E. destruct E as (w & Hw & E). apply in_seq in Hw. apply andb_true_iff in E. destruct E as [E1 E2].
+  apply negb_true_iff, Nat.eqb_neq in E1. apply Nat.eqb_eq in E2. destruct (P1 w ltac:(lia)) as (_ & H & _).
+  rewrite E2 in H. specialize (H ltac:(lia)). lia. Qed.
+
+Lemma isleaf_parent_false parents v : (v < length parents)%nat -> nth v parents v <> v ->
+  forest_isleaf parents (nth v parents v) = false.
+Proof. intros Hv Hne. unfold forest_isleaf. apply negb_false_iff. apply existsb_exists. exists v. split; [apply in_seq; lia|].
+  apply andb_true_iff. split; [apply negb_true_iff, Nat.eqb_neq; congruence|apply Nat.eqb_refl]. Qed.
+
+Lemma isleaf_ancestor parents x a : Under parents x a -> forest_isleaf parents a = true -> a = x.
+Proof. intros Hu Hl. destruct (Nat.eq_dec x a) as [E|E]; [now symmetry|]. exfalso.
+  destruct (Under_last parents x a Hu E) as (c & _ & Hc1 & Hc2).
+  assert (Hc : (c < length parents)%nat).
+  { destruct (Nat.lt_ge_cases c (length parents)) as [H|H]; [exact H|]. rewrite nth_overflow in Hc2 by lia. congruence. }
+  pose proof (isleaf_parent_false parents c Hc ltac:(congruence)) as Hf. rewrite Hc2 in Hf. congruence. Qed.
+
+(* partition(th) on a proper dendrogram, ANY threshold (the leaves are always kept, /repo 813b3d1): defined, one label
+   per item; two items share a label iff they are the same item or have a common ancestor of height < th *)
 Lemma partition_spec d n G feat parents height th :
-  ProperDendrogram d n G feat parents height -> (n <= length parents)%nat ->
-  (forall x, (x < n)%nat -> nth x height 0 < th) -> (0 < n)%nat ->
+  ProperDendrogram d n G feat parents height -> (n <= length parents)%nat -> (0 < n)%nat ->
   exists u, partition parents height th = Some u /\ length u = n /\
     forall x y, (x < n)%nat -> (y < n)%nat ->
       (nth x u 0%nat = nth y u 0%nat <->
-       exists a, Under parents x a /\ Under parents y a /\ nth a height 0 < th).
-Proof. intros PD Hn Hitems Hpos. unfold partition. unfold src_partition_strict. cbv iota.
-  set (valid := fun v => Qltb (nth v height 0) th).
-  assert (Hiv : forall x, (x < n)%nat -> valid x = true) by (intros x Hx; apply Qltb_intro; now apply Hitems).
+       x = y \/ exists a, Under parents x a /\ Under parents y a /\ nth a height 0 < th).
+Proof. intros PD Hn Hpos. unfold partition. unfold src_partition_strict, src_partition_keeps_leaves. cbv iota. cbn [andb].
+  set (valid := fun v => Qltb (nth v height 0) th || forest_isleaf parents v).
+  assert (Hiv : forall x, (x < n)%nat -> valid x = true).
+  { intros x Hx. unfold valid. rewrite (isleaf_item d n G feat parents height x PD Hx). apply orb_true_r. }
+  assert (Hdown : forall v, valid (nth v parents v) = true -> valid v = true).
+  { intros v Hv. destruct (Nat.lt_ge_cases v (length parents)) as [Hlt|Hge]; [|now rewrite (nth_overflow parents v Hge) in Hv].
+    destruct (Nat.eq_dec (nth v parents v) v) as [E|E]; [now rewrite E in Hv|].
+    unfold valid in Hv. rewrite (isleaf_parent_false parents v Hlt E), orb_false_r in Hv.
+    unfold valid. rewrite (height_valid_down d n G feat parents height th PD v Hv). reflexivity. }
   assert (E : existsb valid (seq 0 (length parents)) = true).
   { apply existsb_exists. exists 0%nat. split; [apply in_seq; lia|apply Hiv; lia]. }
   rewrite E. eexists. split; [reflexivity|].
-  destruct (cut_spec d n G feat parents height valid PD Hn Hiv (height_valid_down d n G feat parents height th PD)) as [HL HS].
-  split; [exact HL|]. intros x y Hx Hy. rewrite (HS x y Hx Hy). split; intros (a & H1 & H2 & H3); exists a; repeat split; try assumption.
-  - now apply Qltb_true.
-  - now apply Qltb_intro. Qed.
+  destruct (cut_spec d n G feat parents height valid PD Hn Hiv Hdown) as [HL HS].
+  split; [exact HL|]. intros x y Hx Hy. rewrite (HS x y Hx Hy). split.
+  - intros (a & H1 & H2 & H3). unfold valid in H3. apply orb_true_iff in H3. destruct H3 as [H3|H3].
+    + right. exists a. repeat split; try assumption. now apply Qltb_true.
+    + left. rewrite <- (isleaf_ancestor parents x a H1 H3). now apply (isleaf_ancestor parents y a H2 H3).
+  - intros [->|(a & H1 & H2 & H3)].
+    + exists y. split; [constructor|]. split; [constructor|now apply Hiv].
+    + exists a. repeat split; try assumption. unfold valid. rewrite (Qltb_intro _ _ H3). reflexivity. Qed.
 
 (* split(k): k not above the number of trees -> the trees themselves;
    otherwise the partition at the (k - c)-th largest height *)
@@ -261,18 +303,6 @@ Proof. induction 1 as [x Hx|x y' z' Hx He Hp IH]; [now constructor|].
   apply PathIn_trans with y'; [exact IH|]. eapply path_step; [| |apply path_refl; exact Hx].
   - inversion Hp; assumption.
   - now rewrite edge_between_sym. Qed.
-
-Lemma Under_snoc parents x c : Under parents x c -> nth c parents c <> c -> Under parents x (nth c parents c).
-Proof. induction 1 as [v|x v Hne Hu IH]; intros H.
-  - apply under_step; [exact H|constructor].
-  - apply under_step; [exact Hne|now apply IH]. Qed.
-
-Lemma Under_last parents x v : Under parents x v -> x <> v ->
-  exists c, Under parents x c /\ c <> v /\ nth c parents c = v.
-Proof. induction 1 as [v|x v Hne Hu IH]; intros H; [congruence|].
-  destruct (Nat.eq_dec (nth x parents x) v) as [E|E].
-  - exists x. split; [constructor|]. split; [exact H|exact E].
-  - destruct (IH E) as (c & H1 & H2 & H3). exists c. split; [now apply under_step|]. split; assumption. Qed.
 
 Section Connected.
   Variables (d n : nat) (G : list (nat * nat)) (feat : list vec) (parents : list nat) (height : list Q).
@@ -320,23 +350,18 @@ End Connected.
 (* each cluster of partition(th) induces a connected sub-graph of the constraint graph *)
 Lemma cut_clusters_connected d n G feat parents height th :
   ProperDendrogram d n G feat parents height -> (n <= length parents)%nat -> (0 < n)%nat ->
-  (forall x, (x < n)%nat -> nth x height 0 < th) ->
   exists u, partition parents height th = Some u /\
     forall x y, (x < n)%nat -> (y < n)%nat -> nth x u 0%nat = nth y u 0%nat ->
       PathIn G (fun z => (z < n)%nat /\ nth z u 0%nat = nth x u 0%nat) x y.
-Proof. intros PD Hn Hpos Hitems.
-  destruct (partition_spec d n G feat parents height th PD Hn Hitems Hpos) as (u & Hu & _ & Hspec).
+Proof. intros PD Hn Hpos.
+  destruct (partition_spec d n G feat parents height th PD Hn Hpos) as (u & Hu & _ & Hspec).
   exists u. split; [exact Hu|]. intros x y Hx Hy E.
-  apply (Hspec x y Hx Hy) in E. destruct E as (a & Hxa & Hya & Hth).
+  apply (Hspec x y Hx Hy) in E. destruct E as [->|(a & Hxa & Hya & Hth)]; [constructor; split; [exact Hy|reflexivity]|].
   assert (Ha : (a < length parents)%nat).
-  { destruct (Nat.lt_ge_cases a (length parents)) as [H|H]; [exact H|].
-    (* a beyond the table is its own parent, so x = a < n <= V *)
-    assert (x = a). { inversion Hxa as [|? ? Hne Hu']; subst; [reflexivity|]. clear Hya.
-      exfalso. revert H. clear -Hxa Hn Hx PD. intros H. destruct PD as (P1 & _).
-      assert (forall p q, Under parents p q -> (p < length parents)%nat -> (q < length parents)%nat) as Hb.
-      { induction 1 as [v|p q Hne' Hu'' IH]; intros Hp; [exact Hp|]. apply IH. destruct (P1 p Hp) as (Hr & _). lia. }
-      specialize (Hb x a Hxa ltac:(lia)). lia. }
-    lia. }
+  { destruct PD as (P1 & _).
+    assert (forall p q, Under parents p q -> (p < length parents)%nat -> (q < length parents)%nat) as Hb.
+    { induction 1 as [v|p q Hne' Hu'' IH]; intros Hp; [exact Hp|]. apply IH. destruct (P1 p Hp) as (Hr & _). lia. }
+    apply (Hb x a Hxa). lia. }
   apply PathIn_weaken with (P := fun z => LeafUnder n parents z a).
-  - intros z [Hz Hza]. split; [exact Hz|]. apply (Hspec z x Hz Hx). exists a. tauto.
+  - intros z [Hz Hza]. split; [exact Hz|]. apply (Hspec z x Hz Hx). right. exists a. tauto.
   - apply (node_connected d n G feat parents height PD a Ha); split; assumption. Qed.
